@@ -8,8 +8,10 @@ package ice
 
 import (
 	"context"
+	"errors"
 	"fmt"
 	"net"
+	"os"
 	"net/netip"
 	"runtime"
 	"strings"
@@ -23,6 +25,10 @@ import (
 type ctxT = context.Context
 
 type simSock struct {
+	blockWrites bool      // WriteTo blocks until Close or until a deadline ≤ now is set (C08)
+	wdl         time.Time // write deadline
+	closeErr    bool      // Close returns an error
+	blocked     int       // writers currently blocked
 	w      *simWorld
 	side   int
 	idx    int // index within the side (stable across generations)
@@ -50,6 +56,26 @@ func (s *simSock) WriteTo(b []byte, addr net.Addr) (int, error) {
 
 		return 0, net.ErrClosed
 	}
+	if s.blockWrites {
+		s.blocked++
+		for {
+			if s.closed {
+				s.blocked--
+				s.mu.Unlock()
+
+				return 0, net.ErrClosed
+			}
+			if !s.wdl.IsZero() && !time.Now().Before(s.wdl) {
+				s.blocked--
+				s.mu.Unlock()
+
+				return 0, os.ErrDeadlineExceeded
+			}
+			s.mu.Unlock()
+			time.Sleep(50 * time.Microsecond)
+			s.mu.Lock()
+		}
+	}
 	s.writes++
 	s.mu.Unlock()
 	ua, ok := addr.(*net.UDPAddr)
@@ -69,6 +95,9 @@ func (s *simSock) Close() error {
 		s.closed = true
 		close(s.done)
 	}
+	if s.closeErr {
+		return errors.New("simSock: injected close error") //nolint:err113
+	}
 
 	return nil
 }
@@ -83,9 +112,22 @@ func (s *simSock) isClosed() bool {
 func (s *simSock) LocalAddr() net.Addr {
 	return &net.UDPAddr{IP: s.priv.Addr().AsSlice(), Port: int(s.priv.Port())}
 }
-func (s *simSock) SetDeadline(time.Time) error      { return nil }
-func (s *simSock) SetReadDeadline(time.Time) error  { return nil }
-func (s *simSock) SetWriteDeadline(time.Time) error { return nil }
+func (s *simSock) SetDeadline(t time.Time) error { return s.SetWriteDeadline(t) }
+func (s *simSock) SetReadDeadline(time.Time) error { return nil }
+func (s *simSock) SetWriteDeadline(t time.Time) error {
+	s.mu.Lock()
+	s.wdl = t
+	s.mu.Unlock()
+
+	return nil
+}
+
+func (s *simSock) blockedWriters() int {
+	s.mu.Lock()
+	defer s.mu.Unlock()
+
+	return s.blocked
+}
 func (s *simSock) name() string                     { return fmt.Sprintf("%c%d", 'A'+s.side, s.idx) }
 
 // simMsg is the monitor's decoded view of a STUN datagram.
